@@ -438,7 +438,9 @@ func TestConstructors(t *testing.T) {
 				if v := checkCtor(first); v != nil {
 					rec.Report(t, "ctor", v)
 				}
-				if v := checkCtor(second); v != nil {
+				if v := checkCtor(second); v != nil && vk.IsKnown("C15", v.Key) {
+					rec.Report(t, "ctor", v)
+				} else if v != nil {
 					v.Key = "after-colliding-pair/" + v.Key
 					v.Case = vk.SeqCase{Kind: "ctor", First: first, Then: second}
 					rec.Report(t, "sequence", v)
@@ -506,6 +508,10 @@ func TestCollidingAccounts(t *testing.T) {
 					continue
 				}
 				if v := check(then); v != nil {
+					if vk.IsKnown("C15", v.Key) {
+						rec.Report(t, "auth", v) // a listed finding keeps its own key (and is tolerated as such)
+						continue
+					}
 					v.Key = "after-colliding-account/" + v.Key
 					v.Case = vk.SeqCase{Kind: "auth", First: first, Then: then}
 					rec.Report(t, "sequence", v)
